@@ -445,7 +445,7 @@ class EArr(numpy.ndarray):
             raise Unsupported("ufunc %s.%s on symbolic array" % (ufunc.__name__, method))
         tbl = {
             "add": (lambda a, b: a + b, None), "subtract": (lambda a, b: a - b, None),
-            "multiply": (lambda a, b: a * b, None), "true_divide": (_div, numpy.float64),
+            "multiply": (lambda a, b: a * b, None), "true_divide": (_div, numpy.float64), "divide": (_div, numpy.float64),
             "negative": (lambda a: -a, None),
             "less": (lambda a, b: a < b, bool), "less_equal": (lambda a, b: a <= b, bool),
             "greater": (lambda a, b: a > b, bool), "greater_equal": (lambda a, b: a >= b, bool),
